@@ -16,6 +16,9 @@ PROPS = {
  "C04": P("C04", ["Properties_C04.v"], 150, 2000, ["G_st_mul", "G_Xrot", "G_Xtrans", "G_quat_toMatrix", "G_st_inverse"]),
  "C05": P("C05", ["Properties_C05.v"], 150, 1500, ["G_st_apply", "G_st_inverse", "G_st_mul", "G_st_toMatrix"]),
  "C06": P("C06", ["Properties_C06.v"], 150, 1500, ["G_st_apply", "G_crossm", "G_st_mul"]),
+ "C08": P("C08", ["Properties_C08.v"], 150, 1500, ["G_st_apply", "G_st_applyAdjoint", "G_crossm"]),
+ "C09": P("C09", ["Properties_C09.v"], 150, 1500, ["G_st_apply", "G_crossm", "G_st_mul"]),
+ "C10": P("C10", ["Properties_C10.v"], 150, 1500, ["G_st_apply"]),
  "C12": P("C12", ["Properties_C12.v"], 120, 1200, ["G_st_applyTranspose", "G_st_applyTranspose_rbi", "G_st_applyAdjoint", "G_rbi_mulv", "G_rbi_add", "G_crossf", "G_Xtrans", "G_st_inverse"]),
  "C13": P("C13", ["Properties_C13.v"], 120, 1200, []),
  "C14": P("C14", ["Properties_C14.v"], 200, 3000, ["G_rbi_createFromMassComInertiaC", "G_st_mul"], unchanged_on_reject=True),
